@@ -6,6 +6,7 @@ import json, os
 VERIF = os.path.dirname(os.path.dirname(os.path.abspath(__file__)))
 A_ATOMIC = "janet_atomic_inc/dec/load (capi.c, one GCC __atomic builtin each) are given their sequential meaning (harness/ev_atomic.h); no concurrency"
 units = []
+FP_NOISE2 = "janet_ev_default_threaded_callback|janet_go_thread_subr|janet_thread_chan_cb|janet_timeout_cb|janet_signal_callback"
 FP_NOISE = "cfun_.*|janet_cfun_.*|janet_chanat_.*|janet_stream_(mark|marshal|tostring)|mutexgc|rwlockgc|ev_callback_read|ev_callback_write"
 
 
@@ -91,14 +92,76 @@ U(id="ev.stream.close", props=["C16", "C20"], **{"class": "full-domain"},
   mutants=[{"name": "writer-not-woken", "file": "ev.c", "find": "    if (wf && wf->ev_callback) {\n        wf->ev_callback(wf, JANET_ASYNC_EVENT_CLOSE);", "replace": "    if (wf && wf->ev_callback) {\n", "expect": "C16 close"},
            {"name": "close-before-notify", "file": "ev.c", "find": "    JanetFiber *wf = stream->write_fiber;\n    if (rf && rf->ev_callback) {", "replace": "    JanetFiber *wf = stream->write_fiber;\n    janet_stream_close_impl(stream);\n    if (rf && rf->ev_callback) {", "expect": "C16 close: pending fibers are notified before"}],
   **ASYNC)
-U(id="ev.async.start.busy", props=["C16"], tier="thorough", **{"class": "full-domain"},
-  disabled_reason="GENUINE DEFECT (reproduced): janet_async_start_fiber overwrites stream->read_fiber/write_fiber of a fiber that is still waiting; no caller checks the slot. Two fibers reading one stream: the first is never resumed and the program hangs at exit. Reproducer: (def [r w] (os/pipe)) (ev/spawn (pp (ev/read r 10))) (ev/spawn (pp (ev/read r 10))) (ev/sleep 0.05) (ev/write w \"hello\") (ev/sleep 0.05) (ev/write w \"world\") (ev/close w) -> prints only hello, then hangs.",
+U(id="ev.async.start.busy", props=["C16"], tier="quick", **{"class": "full-domain"},
   clause="a fiber pending on a stream is not silently unregistered when another fiber starts the same kind of operation on that stream (C16: none is silently dropped or left suspended forever because another fiber uses the same stream)",
   entry="h_async_start_busy", functions=["janet_async_start_fiber"], assumes=A_ASYNC,
   mutants=[{"name": "inc-dropped", "file": "ev.c", "find": "    janet_ev_inc_refcount();\n    janet_gcroot(janet_wrap_abstract(stream));", "replace": "    janet_gcroot(janet_wrap_abstract(stream));", "expect": "."}],
   **ASYNC)
 
-# @@MORE@@
+
+# ---------------------------------------------------------------- C16 POSIX write state machine (dfcc harness + loop contract)
+# do-while: the loop head is the start of the body, reached on entry (nothing accepted yet in this event) and on every EINTR
+# retry (the failed call accepted nothing); what the last call returned is known exactly after the loop exit
+WRITE_INV = "g_accepted == g_acc0 && (nwrote == 0 || nwrote == -1)"
+U(id="ev.write.step", props=["C16"], **{"class": "proved"},
+  clause="ev_callback_write, any message length and offset: write/send/sendto gets exactly (bytes + start, len - start); afterwards start has advanced by the number written and equals the bytes the kernel accepted (none re-sent, none skipped); the fiber completes with nil iff start >= len, is cancelled on error/disconnect/close, and EAGAIN leaves the operation pending and untouched",
+  harness=["ev_write.c"], entry="h_write", mode="dfcc", functions=["ev_callback_write"], nanbox=False, link=["wrap.c"],
+  replace_calls=["write:write_stub", "send:send_stub", "sendto:sendto_stub", "__errno_location:errno_stub",
+                 "janet_schedule:schedule_stub", "janet_cancel:cancel_stub", "janet_async_end:async_end_stub"],
+  loops={"ev_callback_write": [{"loop_id": "0", "invariants": WRITE_INV,
+                                "assigns": "nwrote, g_w_called, g_last_ret, g_accepted, g_errno",
+                                "symbol_map": "nwrote,ev_callback_write::1::1::2::nwrote"}]},
+  loop_counts={"ev_callback_write": 1},
+  checks=["bounds-check", "pointer-check", "signed-overflow-check", "conversion-check"],
+  only=r"^(ev_callback_write|h_write|kernel_accepts|[a-z_]+_stub)\.",
+  assumes=["write(2)/send(2)/sendto(2): return -1 with any errno, or r in 0..n having accepted exactly r bytes; read only [buf, buf+n)",
+           "janet_schedule/janet_cancel/janet_async_end are recorders (their own contracts: units ev.async.end, C06/C07 scheduling units)",
+           "termination of the EINTR retry loop is not claimed (the loop contract has no decreases clause)",
+           "dest_abst != NULL iff mode is SENDTO (the six callers of janet_ev_write_generic)"],
+  mutants=[{"name": "offset-overwritten", "file": "ev.c", "find": "                    start += nwrote;", "replace": "                    start = nwrote;", "expect": "C16 write"},
+           {"name": "resend-from-zero", "file": "ev.c", "find": "nwrote = write(stream->handle, bytes + start, nbytes);", "replace": "nwrote = write(stream->handle, bytes, nbytes);", "expect": "exactly \\(bytes"},
+           {"name": "completes-early", "file": "ev.c", "find": "            state->start = start;\n            if (start >= len) {", "replace": "            state->start = start;\n            if (start >= len - 1) {", "expect": "C16 write"},
+           {"name": "eagain-cancels", "file": "ev.c", "find": "                    if (errno == EAGAIN || errno == EWOULDBLOCK) break;\n                    janet_cancel(fiber, janet_ev_lasterr());\n                    janet_async_end(fiber);\n                    break;\n                }\n\n                /* Unless using datagrams", "replace": "                    janet_cancel(fiber, janet_ev_lasterr());\n                    janet_async_end(fiber);\n                    break;\n                }\n\n                /* Unless using datagrams", "expect": "EAGAIN"}])
+
+
+# ---------------------------------------------------------------- C20 self-pipe owner of the counter
+A_PIPE = "self-pipe: a read/write of one event record (<= PIPE_BUF) is atomic: transfers the whole record or returns -1 with any errno (kernel behaviour, assumed)"
+POST = dict(harness=["ev_post.c"], checks=["bounds-check", "pointer-check", "signed-overflow-check"],
+            only=r"^(janet_ev_post_event|janet_ev_handle_selfpipe|janet_ev_dec_refcount|janet_atomic_inc|janet_atomic_dec|h_[a-z_]+|handle_common|rec_tcb|[a-z_]+_stub)\.")
+U(id="ev.post_event", props=["C20"], **{"class": "proved"},
+  clause="janet_ev_post_event takes exactly one pending-work count on the target VM and, when it returns, exactly one complete event carrying (cb, msg) is in that VM's self-pipe to own it (retry loops: EINTR and 4 back-pressure tries, closed by loop contracts)",
+  entry="h_post", mode="dfcc", functions=["janet_ev_post_event"],
+  replace_calls=["write:pwrite_stub", "__errno_location:errno_stub", "sleep:sleep_stub"],
+  loops={"janet_ev_post_event": [
+      {"loop_id": "1", "invariants": "0 <= tries && tries <= 4 && g_pw_events == 0", "decreases": "tries",
+       "assigns": "tries, status, g_pw_events, g_pw_last, g_errno", "symbol_map": "tries,janet_ev_post_event::1::tries;status,janet_ev_post_event::1::1::status"},
+      {"loop_id": "0", "invariants": "g_pw_events == 0",
+       "assigns": "status, g_pw_events, g_pw_last, g_errno", "symbol_map": "status,janet_ev_post_event::1::1::status"}]},
+  loop_counts={"janet_ev_post_event": 4},
+  assumes=[A_ATOMIC, A_PIPE, "termination of the EINTR retry loop is not claimed"],
+  mutants=[{"name": "inc-dropped", "file": "ev.c", "find": "    janet_atomic_inc(&vm->listener_count);\n", "replace": "", "expect": "C20 pairing"},
+           {"name": "failed-write-taken-as-success", "file": "ev.c", "find": "        if (status > 0) break;\n        sleep(0);", "replace": "        if (status >= -1) break;\n        sleep(0);", "expect": "C20 pairing"}],
+  **POST)
+
+
+# the `goto recur` back-edge and the EINTR do-while share their loop head: goto-instrument --dfcc aborts on contracts for them
+# (probed: "_loop_head_or_end ... Unreachable"), hence a bounded environment with unwinding assertions
+HANDLE = dict(mode="plain", functions=["janet_ev_handle_selfpipe"], defines=["-DEV_K=2"],
+  replace_calls=["read:pread_stub", "__errno_location:errno_stub"], remove_bodies=FP_NOISE2,
+  unwind=8, unwinding_assertions=True, bound="at most 2 events queued in the self-pipe and at most 2 EINTR interruptions (unwinding assertions hold for unwind 8)")
+U(id="ev.selfpipe.handle", props=["C20"], **{"class": "bounded"},
+  clause="janet_ev_handle_selfpipe drains the self-pipe: each event's callback runs exactly once with its own message and exactly one pending-work count is released per event (events carrying a callback)",
+  entry="h_handle", assumes=[A_ATOMIC, A_PIPE, "every queued event carries a non-NULL callback (see disabled unit ev.selfpipe.pair.nullcb)", "termination of the EINTR retry loop is not claimed"],
+  mutants=[{"name": "dec-dropped", "file": "ev.c", "find": "            response.cb(response.msg);\n            janet_ev_dec_refcount();", "replace": "            response.cb(response.msg);", "expect": "C20 pairing"},
+           {"name": "stops-after-first-event", "file": "ev.c", "find": "            janet_ev_dec_refcount();\n        }\n        goto recur;", "replace": "            janet_ev_dec_refcount();\n        }", "expect": "drained"}],
+  **HANDLE, **POST)
+U(id="ev.selfpipe.pair.nullcb", props=["C20"], tier="thorough", **{"class": "bounded"},
+  disabled_reason="GENUINE DEFECT (C API, reproduced with a C program against libjanet, see harness/ev_post.c): janet_ev_post_event takes a pending-work count for every event, janet_ev_handle_selfpipe releases it only when cb != NULL; janet_loop1_interrupt posts cb == NULL, so each call leaks one count and janet_loop() never returns after all tasks have finished. Not reachable from Janet code (no core function calls janet_loop1_interrupt).",
+  clause="every event posted to the self-pipe - with or without callback - releases the pending-work count its post took",
+  entry="h_handle_nullcb", assumes=[A_ATOMIC, A_PIPE],
+  mutants=[{"name": "dec-dropped", "file": "ev.c", "find": "            response.cb(response.msg);\n            janet_ev_dec_refcount();", "replace": "            response.cb(response.msg);", "expect": "."}],
+  **HANDLE, **POST)
+
 
 json.dump({"units": units}, open(os.path.join(VERIF, 'units', 'C16_C20.json'), 'w'), indent=1)
 print('%d units' % len(units))
